@@ -100,6 +100,20 @@ def reduce_axes(it, v, axes, node, how):
     return out
 
 
+_LSE_MEMO = {}
+
+
+def _lse_cached(P, fobj):
+    k = (id(P), fobj.key)
+    if k not in _LSE_MEMO:
+        from . import cover as _cover
+        try:
+            _LSE_MEMO[k] = _cover.lse_evidence(P, fobj)
+        except Exception as ex:  # pragma: no cover
+            _LSE_MEMO[k] = (False, str(ex))
+    return _LSE_MEMO[k]
+
+
 def call(it, e, env):
     r = _call(it, e, env)
     return r
@@ -143,6 +157,41 @@ def _call(it, e, env):
                         if it.c.track_s and el.is_numlike and not el.wild and not el.is_unk and el.s == 0:
                             it.violation("EXT.D4", e, f"per-block values of type {fmt(el)} are summed over the blocks by `{name}`: they are intensive (S^0)")
                     return mark_part(el, False)
+    # ---- builders of a stand-in for an estimator (snapshot / worker copy / frozen view): typed as the estimator they stand for;
+    #      that they carry what the kernels read is COPY.complete's business (proto.check_standins)
+    try:
+        _tg = [t_[1] for t_ in P.resolve_callee(fexpr, f) if t_[0] == "repo"]
+    except Exception:
+        _tg = []
+    if _tg:
+        from .proto import standin_builder as _sbb
+        _sb = _sbb(P, _tg[0])
+        if _sb is not None:
+            if _tg[0].self_name and isinstance(fexpr, ast.Attribute):
+                _srcv = it.ev(fexpr.value, env)
+            else:
+                _srcv = argv[0] if argv else None
+            if _srcv is not None and _srcv.k == "obj":
+                return _srcv
+    # ---- a hand-written log-sum-exp of the package (COVER.lse_evidence decides; the typing is that of the library reducers) ----
+    if isinstance(fexpr, ast.Name) and fexpr.id not in env:
+        obj_ = P.resolve_pkg_name(d)
+        if obj_ is not None and hasattr(obj_, "node") and not isinstance(obj_, ClassInfo) and obj_.posparams:
+            from . import cover as _cover
+            okl, whyl = _lse_cached(P, obj_)
+            if okl:
+                b_ = P.bind_args(obj_, args, kws)
+                arr = b_.get(obj_.posparams[0])
+                av = it.ev(arr, env) if arr is not None else None
+                if av is not None and av.is_numlike:
+                    axn = b_.get("axis")
+                    if axn is not None:
+                        axes_ = _axes_from(it.ev(axn, env))
+                    else:
+                        dflt_ = {a_.arg: d_ for a_, d_ in zip((obj_.node.args.posonlyargs + obj_.node.args.args)[-len(obj_.node.args.defaults):], obj_.node.args.defaults)} if obj_.node.args.defaults else {}
+                        axes_ = const_value(dflt_["axis"]) if "axis" in dflt_ else 0
+                    it.c.facts.setdefault("lse_functions", set()).add(obj_.key)
+                    return reduce_axes(it, av, axes_, e, "lse")
     # ---- repository callees -----------------------------------------------------------------------
     if isinstance(fexpr, ast.Name) and fexpr.id == "cls" and f.cls is not None:
         return V("obj", obj=f.cls.name)
@@ -161,6 +210,18 @@ def _call(it, e, env):
             return it.call_repo(callee, argv, kw, e, self_val=fv.origin)
         if fv.k == "func" and fv.note.startswith("arraymethod:"):
             return array_method(it, fv.origin, fv.note[12:], e, env, argv, kw)
+        if fv.k == "func" and fv.note.startswith("dictmethod:"):
+            m = fv.note[11:]
+            el = fv.origin.elem if fv.origin is not None and fv.origin.elem is not None else unk("element of empty dict")
+            if m == "items":
+                return V("list", axis="?", elem=V("tuple", tup=(wild(()), el)))
+            if m == "values":
+                return V("list", axis="?", elem=el)
+            if m == "keys":
+                return V("list", axis="?", elem=wild(()))
+            if m == "get":
+                return el
+            return fv.origin
         if fv.k == "func" and fv.note.startswith("listmethod:"):
             m = fv.note[11:]
             if m in ("append", "extend", "sort", "insert"):
@@ -267,6 +328,18 @@ def _call(it, e, env):
         chunk = next((k.value for k in kws if k.arg == "chunk"), None)
         agg = next((k.value for k in kws if k.arg == "aggregate"), None)
         outs = []
+
+        def _unpartial(fx):
+            while isinstance(fx, ast.Call) and src(fx.func).split(".")[-1] == "partial" and fx.args:
+                fx = fx.args[0]
+            return fx
+        chunk, agg = (_unpartial(chunk) if chunk is not None else None), (_unpartial(agg) if agg is not None else None)
+        # a hand-written tree log-sum-exp: the aggregate step is a log-sum-exp of partial (maximum, scaled sum) states
+        if agg is not None:
+            for t in P.resolve_callee(agg, f):
+                if t[0] == "repo" and _lse_cached(P, t[1])[0]:
+                    it.c.facts.setdefault("lse_functions", set()).add(t[1].key)
+                    return reduce_axes(it, x, axes, e, "lse")
         for fn in (chunk, agg):
             if fn is None:
                 continue
@@ -344,7 +417,8 @@ def array_method(it, base, m, e, env, argv, kw):
         fv = argv[0]
         tgt = it.P.resolve_pkg_name(fv.note) if fv.k == "func" and fv.note else None
         if tgt is not None and hasattr(tgt, "node"):
-            return it.call_repo(tgt, [base], {}, e)
+            extra_kw = {k_: v_ for k_, v_ in kw.items() if k_ not in ("dtype", "chunks", "meta", "drop_axis", "new_axis", "name", "token", "enforce_ndim", "align_arrays")}
+            return it.call_repo(tgt, [base] + list(argv[1:]), extra_kw, e)
         return unk("map_blocks with an unresolved function")
     if m == "dot":
         return it.matmul(base, argv[0], e) if argv else unk()
